@@ -124,3 +124,41 @@ contract(
     safety_props=["C18", "C03"],
     assumes=["X3"],
 )
+
+# ---------------------------------------------------------------------------------------------- contains_import
+
+from pyvc.types import STR
+
+
+def s_imports_name(I, st, module, name):
+    """statement st is `from <module> import ..., <name>, ...` (the same test the code makes)"""
+    f1 = z3.Function("isinst_ImportFrom", sort_of(STMT), z3.BoolSort())
+    mod = z3.Function("Stmt_module", sort_of(STMT), z3.StringSort())
+    names = z3.Function("Stmt_names", sort_of(STMT), sort_of(parse_ty("List[Alias]")))
+    an = z3.Function("Alias_name", sort_of(Abs("Alias")), z3.StringSort())
+    ls = sort_of(parse_ty("List[Alias]"))
+    arr, ln = ls.accessor(0, 0), ls.accessor(0, 1)
+    a = z3.Int(I.ctx.fresh_name("ia"))
+    return SV(z3.And(f1(st.t), mod(st.t) == pack(I.ctx, module, STR),
+                     z3.Exists([a], z3.And(0 <= a, a < ln(names(st.t)), an(z3.Select(arr(names(st.t)), a)) == pack(I.ctx, name, STR)))), BOOL)
+
+
+SPEC_NS["imports_name"] = s_imports_name
+
+contract(
+    FE + ".contains_import",
+    params={"tree": "@ModuleTree", "module": "Str", "name": "Str"},
+    shapes={"ModuleTree": Shape("ast.Module", {"body": "List[Stmt]"})},
+    attrs={"Stmt.module": "Str", "Stmt.names": "List[Alias]", "Alias.name": "Str"},
+    returns=None,
+    result_name="ret",
+    loops={0: Loop(index="k", inv={"no-earlier-match": "all(not imports_name(tree.body[j], module, name) for j in range(0, k))"})},
+    ensures={
+        # C03/C01: the import is considered present only if a *module-level* `from <module> import <name>` exists: a function-local
+        # or conditional import does not make the name available to the generated code
+        "true-iff-a-module-level-import-exists [C03,C01,C13]": "ret == any(imports_name(tree.body[j], module, name) for j in range(0, len(tree.body)))",
+    },
+    frame=[],
+    safety_props=["C18"],
+    ghost={"havoc_unknown_externals": True},
+)
